@@ -562,7 +562,8 @@ func (e *Env) gatesBefore(rule string, fn *ssa.Function, cfg gcfg, label string,
 		for _, in := range b.Instrs {
 			// the instruction itself, or a call to a new helper that contains it: the
 			// gates are then required in front of that call
-			if !match(in) && !instrInHelper(e, in, match, 0) {
+			direct := match(in)
+			if !direct && !instrInHelper(e, in, match, 0) {
 				continue
 			}
 			n++
@@ -570,6 +571,13 @@ func (e *Env) gatesBefore(rule string, fn *ssa.Function, cfg gcfg, label string,
 			ctx := gate.New(e.P, e.P.VTA(), cfg.assume...)
 			for _, g := range gates {
 				key := fmt.Sprintf("%s:before(%s#%d):%s", name, label, n, g.Key)
+				// the instruction sits in a helper the rule tables do not know: the
+				// gate may be passed inside that helper, in front of the instruction
+				if !direct && gateBeforeInHelper(e, in.(*ssa.Call), cfg, match, g) {
+					x := e.R.OK(rule, key, e.P.InstrPos(in), "inside the helper called here every path to the instruction passes "+g.Desc)
+					x.Config = cfg.name
+					continue
+				}
 				_, w := ctx.EstablishedFrom(fn, fn.Blocks[0], gate.Outcome{Kind: gate.NoExit}, g, stop)
 				reached := b == fn.Blocks[0]
 				for _, line := range w {
@@ -871,6 +879,59 @@ func unknownHelperCalls(e *Env, fn *ssa.Function) []*ssa.Call {
 
 // instrInHelper: in is a call to an unknown helper that (with its parameters
 // standing for the arguments) contains an instruction accepted by match.
+// gateBeforeInHelper: in the helper called by c (parameters standing for the
+// arguments), every instruction accepted by match is reachable from the
+// helper's entry only through g.
+func gateBeforeInHelper(e *Env, c *ssa.Call, cfg gcfg, match func(ssa.Instruction) bool, g gate.Gate) bool {
+	h := c.Call.StaticCallee()
+	if h == nil || h.Blocks == nil {
+		return false
+	}
+	prov.PushSubst(h, &c.Call)
+	defer prov.PopSubst()
+	ctx := gate.New(e.P, e.P.VTA(), cfg.assume...)
+	found := false
+	for _, hb := range h.Blocks {
+		for _, i2 := range hb.Instrs {
+			if !match(i2) {
+				continue
+			}
+			found = true
+			if hb == h.Blocks[0] {
+				return false
+			}
+			_, w := ctx.EstablishedFrom(h, h.Blocks[0], gate.Outcome{Kind: gate.NoExit}, g, map[*ssa.BasicBlock]bool{hb: true})
+			for _, line := range w {
+				if strings.HasPrefix(line, "reaches block") {
+					return false
+				}
+			}
+		}
+	}
+	return found
+}
+
+// forEachInstrWithHelpers calls f for every instruction of fn and, with the
+// parameters standing for the call's arguments, for every instruction of the
+// helpers fn calls that the rule tables do not know.
+func forEachInstrWithHelpers(e *Env, fn *ssa.Function, f func(in ssa.Instruction)) {
+	for _, b := range fn.Blocks {
+		for _, in := range b.Instrs {
+			f(in)
+		}
+	}
+	for _, c := range unknownHelperCalls(e, fn) {
+		h := c.Call.StaticCallee()
+		prov.PushSubst(h, &c.Call)
+		for _, b := range h.Blocks {
+			for _, in := range b.Instrs {
+				f(in)
+			}
+		}
+		prov.PopSubst()
+	}
+}
+
 func instrInHelper(e *Env, in ssa.Instruction, match func(ssa.Instruction) bool, depth int) bool {
 	c, ok := in.(*ssa.Call)
 	if !ok || depth > 1 {
